@@ -113,6 +113,9 @@ func propC20(w *World, r *Report) {
 		// every condition on every path is one of A, B (no extra gate)
 		for _, g := range p.Conds {
 			s := g.Cond.String()
+			if n := tnot(g.Cond).String(); n == condA || n == condB {
+				s = n // the same comparison written in its negated form
+			}
 			r.Check(s == condA || s == condB, "G1", name+": only the two stated comparisons gate printing", pos, s)
 		}
 	}
